@@ -9,8 +9,7 @@ CONSTANTS
                 "ser.rs::option_dalek_sig_serde::deserialize#range-end", "ser.rs::dalek_sig_serde::deserialize#range-end",
                 "grin_keychain::BlindingFactor::from_hex#unwrap", "grin_keychain::Identifier::from_hex#unwrap",
                 "grin_util::from_hex#char-boundary", "lmdb.rs::get_stored_tx#unwrap",
-                "ed25519::Signature::new#invalid-signature", "grin_secp256k1zkp::RangeProof::visit_seq#index",
-                "selection.rs::select_coins#windows-zero"}
+                "ed25519::Signature::new#invalid-signature", "grin_secp256k1zkp::RangeProof::visit_seq#index"}
 SPECIFICATION TSpec
 POSTCONDITION Consumed
 CHECK_DEADLOCK FALSE
